@@ -26,26 +26,30 @@ theorem FIBDemux_put_eq (c : FIBDemuxCfg) (p : Pkt) (fresh : Nat) : (FIBDemux_pu
       unfold FIBDemux.viaTable
       cases ho : c.outs with
       | none =>
-        simp [Eff.run, Eff.seq, Eff.bind, Eff.skip, Eff.pure, Eff.tryCatch, Eff.assert, Eff.raise, pyIn, he, truthyOptList]
+        cases hd : c.default <;>
+          simp [Eff.run, Eff.seq, Eff.bind, Eff.skip, Eff.pure, Eff.tryCatch, Eff.raise, Eff.putOpt, Eff.put, pyIn, he, hd,
+            truthyOptList, truthyOpt, toDefault]
       | some outs =>
         cases outs with
         | nil =>
-          simp [Eff.run, Eff.seq, Eff.bind, Eff.skip, Eff.pure, Eff.tryCatch, Eff.assert, Eff.raise, pyIn, he, truthyOptList]
+          cases hd : c.default <;>
+            simp [Eff.run, Eff.seq, Eff.bind, Eff.skip, Eff.pure, Eff.tryCatch, Eff.raise, Eff.putOpt, Eff.put, pyIn, he, hd,
+              truthyOptList, truthyOpt, toDefault]
         | cons o os =>
           unfold FIBDemux.lookup
           cases hp : dget fib p.flowId with
           | none =>
             cases hd : c.default <;>
-              simp [Eff.run, Eff.seq, Eff.bind, Eff.skip, Eff.pure, Eff.tryCatch, Eff.assert, Eff.raise, Eff.itemOpt, Eff.item,
+              simp [Eff.run, Eff.seq, Eff.bind, Eff.skip, Eff.pure, Eff.tryCatch, Eff.raise, Eff.itemOpt, Eff.item,
                 Eff.putOpt, Eff.put, pyIn, he, hp, hd, truthyOptList, truthyOpt, toDefault]
           | some port =>
             cases hi : pyIndex (o :: os) port with
             | none =>
               cases hd : c.default <;>
-                simp [Eff.run, Eff.seq, Eff.bind, Eff.skip, Eff.pure, Eff.tryCatch, Eff.assert, Eff.raise, Eff.itemOpt, Eff.item,
+                simp [Eff.run, Eff.seq, Eff.bind, Eff.skip, Eff.pure, Eff.tryCatch, Eff.raise, Eff.itemOpt, Eff.item,
                   Eff.indexOpt, Eff.index, Eff.putOpt, Eff.put, pyIn, he, hp, hi, hd, truthyOptList, truthyOpt, toDefault]
             | some d =>
-              simp [Eff.run, Eff.seq, Eff.bind, Eff.skip, Eff.pure, Eff.tryCatch, Eff.assert, Eff.raise, Eff.itemOpt, Eff.item,
+              simp [Eff.run, Eff.seq, Eff.bind, Eff.skip, Eff.pure, Eff.tryCatch, Eff.raise, Eff.itemOpt, Eff.item,
                 Eff.indexOpt, Eff.index, Eff.putOpt, Eff.put, pyIn, he, hp, hi, truthyOptList]
 
 theorem Splitter_put_eq (c : SplitterCfg) (p : Pkt) (fresh : Nat) : (Splitter_put c p).run fresh = .ok (Splitter.put c p fresh) := by
